@@ -180,7 +180,7 @@ pub fn gen_case(preset: Preset, seed: u64, index: u64) -> Option<HistoryCase> {
             .map(|_| {
                 if preset == Preset::SerdeXmlRs {
                     // xml-rs is a stricter parser: keep to plain serialization, both empty spellings
-                    Surface { seed: r.next(), empty_style: 2, fancy: false }
+                    Surface { seed: r.next(), empty_style: 2, fancy: false, lead: 0 }
                 } else {
                     Surface::seeded(r.next())
                 }
@@ -198,6 +198,8 @@ pub fn gen_case(preset: Preset, seed: u64, index: u64) -> Option<HistoryCase> {
             surfaces,
             kinds: vec![ReaderKind::Str],
             raw_texts: None,
+            across_threads: false,
+            failed_parse_first: false,
         });
     }
     None
